@@ -779,8 +779,6 @@ PROBES = [
     "tuple_form",
     "gen_form",
     "keyerror",
-    "one_shot_key_rejected",
-    "bytes_key_rejected",
     "lmpv_strict_prefix_hit",
     "lmpv_longest_is_none",
     "iterators_interleaved",
